@@ -137,6 +137,34 @@ def unrootedGo [Add K] : Bool → List (PTree K) → List (PTree K)
 def unrooted [Add K] : PTree K → PTree K
   | .node n l cs => .node n l (unrootedGo (decide (cs.length < 3)) cs)
 
+/-! ## `unrooted` as repaired by `fixes/C09-unrooted-sister-edge.patch`
+
+The children of the collapsed node keep their lengths; the removed stem edge's length goes
+onto the *other* children of the root (at most one, since the root has fewer than 3). -/
+def splitFirstInternal : List (PTree K) → Option (List (PTree K) × PTree K × List (PTree K))
+  | [] => none
+  | c :: cs =>
+    if c.children.isEmpty then
+      match splitFirstInternal cs with
+      | none => none
+      | some (pre, x, post) => some (c :: pre, x, post)
+    else some ([], c, cs)
+
+def bumpLen [Add K] (extra : Option K) (s : PTree K) : PTree K :=
+  PTree.node s.name (addLen s.len extra) s.children
+
+def unrootedFixed [Add K] : PTree K → PTree K
+  | .node n l cs =>
+    if cs.length < 3 then
+      match splitFirstInternal cs with
+      | none => .node n l cs
+      | some (pre, x, post) => .node n l (pre.map (bumpLen x.len) ++ x.children ++ post.map (bumpLen x.len))
+    else .node n l cs
+
+/-- the implementation's `unrooted` (`fixed = false`) or the repaired one -/
+def unrootedWith [Add K] (fixed : Bool) (t : PTree K) : PTree K :=
+  if fixed then unrootedFixed t else unrooted t
+
 /-! ## `sorted` -/
 def insertStr (x : String) : List String → List String
   | [] => [x]
@@ -199,7 +227,7 @@ def subL [Add K] [Zero K] [DecidableEq K] (inc : List String) (tipsonly : Bool) 
 end
 
 def getSubTree [Add K] [Zero K] [DecidableEq K] (t : PTree K) (names : List String)
-    (ignoreMissing keepRoot tipsonly : Bool) : Except TErr (PTree K) :=
+    (ignoreMissing keepRoot tipsonly : Bool) (fixed : Bool := false) : Except TErr (PTree K) :=
   let known := if tipsonly then tips t else allNames t
   if !ignoreMissing && names.any (fun n => !known.contains n) then .error .valueError
   else
@@ -210,7 +238,7 @@ def getSubTree [Add K] [Zero K] [DecidableEq K] (t : PTree K) (names : List Stri
       else
         -- `new_tree.name = "root"`; name_loaded is left as it was
         let r := PTree.node (if r.name = "" then "" else "root") r.len r.children
-        .ok (if t.children.length > 2 then unrooted r else r)
+        .ok (if t.children.length > 2 then unrootedWith fixed r else r)
 
 /-! ## distances: `_get_distances`
 
@@ -255,5 +283,23 @@ def lookupLast {α β : Type} [DecidableEq α] (k : α) : List (α × β) → Op
     match lookupLast k rest with
     | some w => some w
     | none => if k' = k then some v else none
+
+/-! ## histories of distance-preserving transformations -/
+inductive TOp where
+  | reroot (path : List Nat)          -- rooted_at / rooted_with_tip / the last step of root_at_midpoint
+  | sorted (order : List String)
+  | copy                              -- copy / deepcopy: the identity on values
+
+def applyOp (t : PTree K) : TOp → Option (PTree K)
+  | .reroot p => rerootAt t p
+  | .sorted o => some (sorted t o)
+  | .copy => some t
+
+def applyOps : PTree K → List TOp → Option (PTree K)
+  | t, [] => some t
+  | t, op :: ops =>
+    match applyOp t op with
+    | none => none
+    | some r => applyOps r ops
 
 end CogentModel.Phylo
